@@ -15,6 +15,7 @@ inductive E where
   | statusLine | statusCode | header | headerValue
   | chunkSize | chunk | contentLength
   | other
+  | invalidBaseUrl | invalidUrlHost | invalidUrlPort   -- a URL the client cannot dial (`BaseStream::connect`, `set_host`)
   deriving DecidableEq, Repr, Inhabited
 
 /-- Outcome of a model step.  `blocked` = the peer is silent for ever (scripted `pause`);
